@@ -616,12 +616,20 @@ def aliases(run):
         flat = tuple(value) if isinstance(value, (tuple, list)) or \
             hasattr(value, '__iter__') and not isinstance(value, str) \
             else (value,)
-        if isinstance(value, PositionAndLook):
-            flat = (value.x, value.y, value.z, value.yaw, value.pitch)
-            same = back == value
-        else:
-            same = tuple(back) == flat if len(flat) > 1 or isinstance(
-                back, tuple) else back == value
+        try:
+            if isinstance(value, PositionAndLook):
+                flat = (value.x, value.y, value.z, value.yaw, value.pitch)
+                same = back == value
+            else:
+                same = tuple(back) == flat if len(flat) > 1 or isinstance(
+                    back, tuple) else back == value
+        except Exception as e:
+            # e.g. a record handed back without its fields
+            run.violation('alias/%s.%s' % (label, alias), 'the value read '
+                          'back through the alias cannot be compared with '
+                          'what was set', {'set': repr(value),
+                                           'error': repr(e)})
+            return
         if not same or und != flat:
             run.violation('alias/%s.%s' % (label, alias), 'alias does not read'
                           ' back what was set / underlying fields differ',
@@ -629,6 +637,19 @@ def aliases(run):
                            'underlying': und})
     v, d = Vector(1.5, -2.0, 3.25), Direction(45.0, -10.0)
     pal = PositionAndLook(x=1.0, y=2.0, z=3.0, yaw=4.0, pitch=5.0)
+    # the same record given by position, completely and in part
+    try:
+        p1 = PositionAndLook(1.0, 2.0, 3.0, 4.0, 5.0)
+        p2 = PositionAndLook(1.0, 2.0, z=3.0, yaw=4.0, pitch=5.0)
+        ok = p1 == pal and p2 == pal and hash(p1) == hash(pal) and \
+            tuple(p1) == (1.0, 2.0, 3.0, 4.0, 5.0)
+    except Exception as e:
+        ok = repr(e)
+    run.count('alias.positional_records')
+    if ok is not True:
+        run.violation('record/positional-construction', 'PositionAndLook '
+                      'built from positional fields differs from the one '
+                      'built from keywords', {'detail': ok})
     for K, label in ((cb.PlayerPositionAndLookPacket, 'PPAL'),
                      (cb.SpawnPlayerPacket, 'SpawnPlayer')):
         rt(label, K(), 'position', v, ('x', 'y', 'z'))
